@@ -224,6 +224,29 @@ def certificate_stream(chk):
                          dict(case, first=impl[1], second=impl[3]))
         else:
             chk.stat('cert:format-outside-model')
+    # in-kernel cross-check of the extracted certificate (vm_compute on the same term) on a small sample
+    sample = [(r, a) for r, a in zip(res, answers)
+              if not r['opts'].get('model') and not r['opts'].get('noop') and a in (0, 1) and len(r['stream']) < 400
+              and all(ord(c) < 0x100 for c in r['stream'])][:10]
+
+    def coq_bool(x):
+        return 'true' if x else 'false'
+
+    def coq_opts(o):
+        ind = e_indent(o.get('indent'))
+        return ('(mkOpts %s %s %s %s %s false None None None %s %s false false [])' % (
+            'amr_model' if o.get('amr') else 'default_model', coq_bool(o.get('--canonicalize-roles')), coq_bool(o.get('--reify-edges')),
+            coq_bool(o.get('--dereify-edges')), coq_bool(o.get('--reify-attributes')),
+            '(Some (%d)%%Z)' % ind[0] if ind else 'None', coq_bool(o.get('compact'))))
+    if sample:
+        exprs = ['idempotence_certificate %s [%s]%%N' % (coq_opts(r['opts']), ';'.join(str(ord(c)) for c in r['stream'])) for r, _ in sample]
+        outs = common.run_in_kernel('C20c', 'From PM Require Import Spec.Idle Gen.AmrTable.', exprs)
+        for (r, a), k in zip(sample, outs):
+            chk.corr_cases += 1
+            if k.strip() != ('true' if a == 1 else 'false'):
+                chk.mismatch('the extracted idempotence_certificate differs from its evaluation in the kernel',
+                             {'opts': r['opts'], 'streams': [r['stream']]}, a, k)
+        chk.stat('cert:in-kernel-cross-checks', len(sample))
     chk.notes.append('idempotence certificate (Properties/C20c.v) evaluated through the extracted model on '
                      f'{len(res)} runs of the reify option family; certified runs must be (and are) byte-idempotent on the tool')
 
